@@ -143,6 +143,15 @@ CHECKS.update({
    note="signals are raised synchronously at call-out points; positions inside one atomic store are not distinguished"),
 })
 
+CHECKS.update({
+ "C03": dict(level="exploration", engine="rapidcheck", design="3/C03",
+   technique="rapidcheck-generated model specifications -> NLFeeder -> mp::WriteNLFile (text and binary, generated writer options) -> mp::ReadNLFile with a recording handler; "
+             "round-trip oracle against the specification plus text-vs-binary differential",
+   text="About 96000 generated models per quick run over all NL operators and arities, all variable/bound/range kinds, defined variables, functions, initial values, suffixes, names, "
+        "boundary doubles (subnormals, 17-digit values, extremes, +-Inf bounds) x {text, binary} x {comments} x {bounds first/last} x {column sizes 0/1/2}.",
+   note="writer opcode table (nl-opcodes.h) paired by name with the reader's expression kinds; segment order not compared"),
+})
+
 NOT_APPLICABLE = []
 
 def main():
